@@ -252,6 +252,7 @@ def read_tree(texts: T.Dict[str, str]) -> Model:
         other = [[kw, canon(v)] for i, (kw, v) in enumerate(args) if (kw is None and i == 0) or (kw is not None and kw not in ('sources', 'extra_files'))]
         m.targets.append({'name': name, 'fn': rec['fn'], 'dir': rec['dir'], 'file': rec['file'],
                           'sources': sorted(src_paths(rec['dir'], srcs)), 'extra': sorted(src_paths(rec['dir'], extra)),
+                          'extra_scalar': any(not isinstance(v, list) for v in extra),     # extra_files: 'a.h' (a value that is not a list)
                           'args': other})
     return m
 
@@ -1373,6 +1374,10 @@ class Judge:
         key = what.split(':', 1)[1] if ':' in what else None
         what = what.split(':', 1)[0]
         for c in step['cmds']:
+            if c['type'] == 'default_options' and c['operation'] == 'set' and what == 'project-args':
+                # same root cause as below: the value reaches StringNode() as if it were source text
+                if any(isinstance(x, str) and '\\' in x for x in c['options'].values()):
+                    return 'effect/kwargs-set:backslash-interpreted'
             if c['type'] == 'kwargs' and c['operation'] in ('set', 'add') and (key is None or key in c.get('kwargs', {})):
                 vals = [v for k, v in c['kwargs'].items() if key is None or k == key]
                 flat_vals = [x for v in vals for x in (v if isinstance(v, list) else [v])]
@@ -1484,7 +1489,10 @@ def tcmd(target: str, op: str, sources: T.Optional[T.List[str]] = None, **kw: T.
 
 
 # =============================================================================================
-# 10. deterministic probes: one per confirmed root cause (kept failing until the tool is fixed)
+# 10. deterministic probes: one minimal case per root cause.  KNOWN_PROBES are the genuine defects of the tree as it is (each
+#     fails with exactly its signature until the tool is repaired; the class is kept out of the random campaign meanwhile, see
+#     EXCLUDES); FIXED_PROBES are defects this check found that have since been repaired in /repo (they guard against regressions;
+#     the same cases are stored as replays/regress/C17-*.json).
 
 def _prog(kwargs_text: str, pre: T.Optional[T.List[str]] = None) -> T.Dict[str, T.List[str]]:
     return {BUILD_FILE: ["project('p', version: '1.0')\n"] + (pre or []) + [f"executable('prog', 'main.c', {kwargs_text})\n", "tail = 1\n"]}
@@ -1494,7 +1502,22 @@ def _add(files: T.Dict[str, T.List[str]], idx: int) -> dict:
     return mk(files, [tcmd('prog', 'src_add', ['new.c'], _allowed=[[BUILD_FILE, idx]])])
 
 
-PROBES: T.List[T.Tuple[str, str, T.Callable[[], dict]]] = [
+ProbeT = T.Tuple[str, str, T.Callable[[], dict]]
+
+KNOWN_PROBES: T.List[ProbeT] = [
+    ('effect/extra_files_add:no-longer-evaluates', 'extra_files given as a single string, then extended',
+     lambda: mk(_prog("extra_files: 'a.h'"), [tcmd('prog', 'extra_files_add', ['new.h'], _allowed=[[BUILD_FILE, 1]])])),
+    ('effect/kwargs-set:backslash-interpreted', 'string value with a backslash given to kwargs set',
+     lambda: mk(_prog('install: true'), [{'type': 'kwargs', 'function': 'target', 'id': 'prog', 'operation': 'set',
+                                          'kwargs': {'install_dir': 'C:\\tools\\bin'}, '_allowed': [[BUILD_FILE, 1]]}])),
+    ('effect/kwargs-set:cli-bool-false', '`kwargs set target prog install false` on the command line',
+     lambda: mk(_prog('install: true'), [{'mode': 'cli', 'cmds': [{'type': 'kwargs', 'function': 'target', 'id': 'prog', 'operation': 'set',
+                                                                  'kwargs': {'install': 'false'}, '_allowed': [[BUILD_FILE, 1]]}]}])),
+    ('reprint/string-multiline', "triple-quoted string with trailing blanks and an empty line in a re-printed call",
+     lambda: _add(_prog("install_rpath: '''a  \n\nb'''"), 1)),
+]
+
+FIXED_PROBES: T.List[ProbeT] = [
     ('reprint/parens-not', 'parens under `not`',
      lambda: _add(_prog('install: not (flag and false)', ['flag = true\n']), 2)),
     ('reprint/parens-uminus', 'parens under unary minus',
@@ -1513,25 +1536,20 @@ PROBES: T.List[T.Tuple[str, str, T.Callable[[], dict]]] = [
      lambda: _add(_prog('d_debug: [n * (7 / 2)]', ['n = 5\n']), 2)),
     ('reprint/string-quote', "escaped quote inside '...'",
      lambda: _add(_prog("c_args: ['-DQ=\"it\\'s\"']"), 1)),
-    ('analysis-crash/order-compare', 'ordering comparison of known values in a keyword argument',
-     lambda: _add(_prog('build_by_default: (n - 1) * 2 > 3', ['n = 5\n']), 2)),
     ('reprint/string-newline-raw', 'escape \\n in a re-printed string becomes a raw line break',
      lambda: _add(_prog("c_args: ['-DA=a\\nb']"), 1)),
+    ('analysis-crash/order-compare', 'ordering comparison of known values in a keyword argument',
+     lambda: _add(_prog('build_by_default: (n - 1) * 2 > 3', ['n = 5\n']), 2)),
     ('splice/odd-line-separator', 'form feed in a comment above the edited statement',
      lambda: _add({BUILD_FILE: ["project('p')\n", "# page \x0c break\n", "executable('prog', 'main.c', install: true)\n", "tail = 1\n"]}, 2)),
-    ('effect/kwargs-set:cli-bool-false', '`kwargs set target prog install false` on the command line',
-     lambda: mk(_prog('install: true'), [{'mode': 'cli', 'cmds': [{'type': 'kwargs', 'function': 'target', 'id': 'prog', 'operation': 'set',
-                                                                  'kwargs': {'install': 'false'}, '_allowed': [[BUILD_FILE, 1]]}]}])),
-    ('effect/kwargs-set:backslash-interpreted', 'string value with a backslash given to kwargs set',
-     lambda: mk(_prog('install: true'), [{'type': 'kwargs', 'function': 'target', 'id': 'prog', 'operation': 'set',
-                                          'kwargs': {'install_dir': 'C:\\tools\\bin'}, '_allowed': [[BUILD_FILE, 1]]}])),
-    ('reprint/string-multiline', "triple-quoted string with an empty line / trailing blanks",
-     lambda: _add(_prog("install_rpath: '''a  \n\nb'''"), 1)),
     ('crash/target_rm:IndexError-string-index-out-of-range', 'rm_target of an assigned target that is the last statement of its file',
      lambda: mk({BUILD_FILE: ["project('p')\n", "exe = executable('prog', 'main.c')\n"]}, [tcmd('prog', 'target_rm', _allowed=[[BUILD_FILE, 1]], _vars=['exe'])])),
-    ('effect/extra_files_add:no-longer-evaluates', 'extra_files given as a single string',
-     lambda: mk(_prog("extra_files: 'a.h'"), [tcmd('prog', 'extra_files_add', ['new.h'], _allowed=[[BUILD_FILE, 1]])])),
+    ('locality/other-statement-changed', 'src_rm of an inline source and of a source in an inline list of the same call (nested modified nodes)',
+     lambda: mk({BUILD_FILE: ["project('p')\n", "executable('prog', 'a.c', ['b.c', 'c.c'])\n", "tail = 1\n"]},
+                [tcmd('prog', 'src_rm', ['a.c', 'b.c'], _allowed=[[BUILD_FILE, 1]])])),
 ]
+
+PROBES: T.List[ProbeT] = KNOWN_PROBES + FIXED_PROBES
 
 
 # =============================================================================================
@@ -1596,6 +1614,7 @@ class TreeGen:
         self.values: T.Dict[str, T.Any] = {}         # reference values of the variables expressions may use
         self.files: T.Dict[str, T.List[T.Any]] = {BUILD_FILE: []}     # entries: statement AST or raw text
         self.n = 0
+        self.reprintable = True      # False while expressions are drawn for statements no command can re-print
 
     # -- draws
     def i(self, n: int) -> int:
@@ -1640,6 +1659,12 @@ class TreeGen:
             return self.sanitize_str(e)
         if k == 'bin' and e[1] in ORDER_OPS and 'order-compare' in self.excluded:
             self.excl['order comparison of known values (analysis-crash/order-compare)'] += 1
+            return self.lit(e)
+        if k == 'meth' and any(kw is not None for kw, _ in e[3]):
+            # the rewriter's analysis hands keyword arguments of methods on known values to the real method as AST nodes and
+            # rejects the WHOLE tree ('"to_string" keyword argument "fill" was of type "NumberNode"'): a clean refusal before
+            # any edit, so nothing of the property could be judged on such a tree
+            self.excl['method call with a keyword argument (to_string(fill:/format:), slice(step:)): the rewriter refuses the whole tree cleanly, no edit to judge'] += 1
             return self.lit(e)
         slots = child_slots(e)
         for idx, (child, minp, cls) in enumerate(slots):
@@ -1687,7 +1712,7 @@ class TreeGen:
                     kind = 's'
                 return ['str', R.escape_single(val), kind]
         else:
-            if 'multiline-trailing-ws' in self.excluded and re.search(r'\s\n', raw):
+            if 'multiline-trailing-ws' in self.excluded and self.reprintable and re.search(r'\s\n', raw):
                 self.excl['triple-quoted string with blank space or an empty line before a line break (reprint/string-multiline)'] += 1
                 return ['str', re.sub(r'\s+\n', '\n', raw), kind]
         return e
@@ -1764,7 +1789,9 @@ class TreeGen:
             self.add(BUILD_FILE, ['assign', name, R.lit_of(v)])
         for _ in range(self.i(3)):
             t = self.pick([RG.INT, RG.BOOL, RG.STR])
+            self.reprintable = False          # an assignment of a scalar is never re-printed
             e = self.expr(t, 2)
+            self.reprintable = True
             name = g.fresh()
             try:
                 self.values[name] = self.ref(e)
@@ -2039,7 +2066,6 @@ class TreeGen:
             'extra_vars': (list(extra['vars']) if extra else []),
             'extra_files': ({os.path.normpath(os.path.join(d, s)): {'literal': lit, 'shared': sh} for s, d, lit, sh in extra['files']} if extra else {}),
             'kwlit': {k: self.is_literal_kw(v) for k, v in kws},
-            'extra_scalar': extra_arg is not None and extra_arg[0] not in ('arr', 'id', 'call'),
         }
 
     @staticmethod
@@ -2070,6 +2096,13 @@ class TreeGen:
         self.dmeta[name] = {'name': name, 'var': var, 'loc': [BUILD_FILE, idx], 'kwlit': {k: self.is_literal_kw(v) for k, v in kws}}
 
     def neutral(self, rel: str) -> None:
+        self.reprintable = False              # statements outside every data flow: must stay byte-identical
+        try:
+            self._neutral(rel)
+        finally:
+            self.reprintable = True
+
+    def _neutral(self, rel: str) -> None:
         RG = self.RG
         k = self.i(7)
         if k == 0:
@@ -2161,8 +2194,11 @@ class TreeGen:
         added: T.List[str] = []
         cmds: T.List[dict] = []
         law: T.Optional[str] = None
-        self.kwlit_proj = {a[0]: 'all' for a in []}
         nfiles = {rel: len(v) for rel, v in self.files.items()}
+        # known finding effect/extra_files_add:no-longer-evaluates: the class is decided on the reference VALUE of the argument
+        for t in snap['targets']:
+            if t['name'] in self.tmeta:
+                self.tmeta[t['name']]['extra_scalar'] = bool(t.get('extra_scalar'))
 
         def tmeta(name: str) -> dict:
             return self.tmeta[name]
@@ -2360,7 +2396,10 @@ class TreeGen:
                         keys.append(kk)
                 if not keys:
                     return
-                opts = {kk: (self.pick(OPTION_VALUES[kk]) if op == 'set' else None) for kk in keys}
+                if op == 'set' and 'prefix' in keys and 'set-backslash' in self.excluded:
+                    self.excl[BACKSLASH_EXCLUDED] += 1
+                opts = {kk: (self.pick(OPTION_VALUES[kk] + (['C:\\opt\\tools'] if kk == 'prefix' and 'set-backslash' not in self.excluded else []))
+                             if op == 'set' else None) for kk in keys}
                 push({'type': 'default_options', 'operation': op, 'options': opts, '_allowed': [[BUILD_FILE, 0]]})
             else:
                 which = self.i(4)
@@ -2461,6 +2500,8 @@ class TreeGen:
                 vals.append("it's")
             if 'set-backslash' not in self.excluded:
                 vals += ['C:\\tools', 'back\\\\slash', 'new\\nline']
+            else:
+                self.excl[BACKSLASH_EXCLUDED] += 1
             return self.pick(vals)
         if typ == 'strlist':
             if key == 'version':
@@ -2471,6 +2512,10 @@ class TreeGen:
                 pool = ['buildtype=plain', 'warning_level=3', 'werror=true']
             else:
                 pool = ['BSD-3', 'Zlib', 'LGPL', 'COPYING.txt', 'x y']
+                if 'set-backslash' not in self.excluded:
+                    pool = pool + ['doc\\LICENSE.txt', 'a\\tb']
+                else:
+                    self.excl[BACKSLASH_EXCLUDED] += 1
             if aslist or self.chance(40):
                 n = 1 + self.i(2)
                 out = []
@@ -2491,6 +2536,8 @@ class TreeGen:
 
 
 _NOVAL = object()
+BACKSLASH_EXCLUDED = ('command value containing a backslash for kwargs set/add (string and string-list keys) or default_options set: '
+                      'not offered (effect/kwargs-set:backslash-interpreted)')
 
 
 def _mentions(x: T.Any, var: str) -> bool:
@@ -2547,7 +2594,12 @@ def run_probes(ev: Evidence) -> T.Tuple[T.List[Failure], T.FrozenSet[str]]:
     for sig, what, make in PROBES:
         case = make()
         case['cls'] = 'probe:' + sig
-        f = check_case(case, ev)
+        key = case_fp(case)
+        if key in _JUDGED:          # the identical case was just replayed from replays/regress in this run
+            f = _JUDGED[key]
+            ev.case(None, nontrivial=False, cls=case['cls'], fingerprint=key, sample={'files': {k: file_text(v) for k, v in case['files'].items()}, 'what': what})
+        else:
+            f = check_case(case, ev)
         ev.event('probe')
         if f is not None:
             fails.append(f)
@@ -2635,5 +2687,12 @@ def run(ctx: Ctx) -> None:
     pmap(ctx, _campaign_shard, [(s, per, tuple(sorted(excluded))) for s in shard_seeds(ctx, shards)])
 
 
+_JUDGED: T.Dict[bytes, T.Optional[Failure]] = {}      # verdicts of the regress replays of this run, by case fingerprint
+
+
 def replay(ctx: Ctx, case: T.Any, doc: dict) -> T.Optional[Failure]:
-    return check_case(case, ctx.ev, count=False)
+    if not isinstance(case, dict) or not isinstance(case.get('files'), dict) or not isinstance(case.get('steps'), list):
+        raise HarnessError('C17 replay file without a case of the form {files, steps}')
+    f = check_case(case, ctx.ev, count=False)
+    _JUDGED[case_fp(case)] = f
+    return f
